@@ -183,7 +183,7 @@ pub fn judge(src: &str, b: &qv::Builtins, mods: &HashMap<String, String>, use_re
     }
     if use_reference {
         let (reference, counters) = refsem::evaluate(src, mods);
-        for e in ["nil_bound_by_bare_binder", "failed_match_then_more_terms_in_chain", "tail_call_argument_outside_parameter_type", "generic_function_applied"] { if counters.get(e).copied().unwrap_or(0) > 0 { j.events.push(e); } }
+        for e in ["nil_bound_by_bare_binder", "failed_match_then_more_terms_in_chain", "tail_call_argument_outside_parameter_type", "generic_function_applied", "partial_parameter_with_a_field_at_another_index"] { if counters.get(e).copied().unwrap_or(0) > 0 { j.events.push(e); } }
         // outside the reference evaluator: fall back to the triggers visible in the program text
         if matches!(reference, Outcome::Unsupported(_) | Outcome::Budget) { for e in static_triggers(src) { if e != "tail_call_present" && !j.events.contains(&e) { j.events.push(e); } } }
         if let Outcome::TypeError(m) = reference { j.problems.push((format!("ill-typed:{}", m), format!("the reference evaluator hit a dynamic type error ({}) in a program the compiler accepted", m))); }
@@ -209,7 +209,7 @@ pub fn check(rep: &Report) {
         let mut use_reference = true;
         let (family, src): (&str, String) = if j < items.len() { ("corpus", items[j].src.clone()) }
         else if j < items.len() + n_mut { let mut rng = Rng::derive(rep.seed, "C01-mut", 0, j as u64); let it = &items[rng.below(items.len())]; ("mutated", if rng.chance(1, 2) { c02::mutate(&it.src, &mut rng) } else { ill_mutate(&it.src, &mut rng) }) }
-        else if j < items.len() + n_mut + n_gen { let mut rng = Rng::derive(rep.seed, "C01-gen", 0, j as u64); let fuel = *rng.pick(&[4i64, 8, 16, 30, 60]); let nilb = rng.chance(1, 8); let mut g = Gen::new(&mut rng, fuel); g.allow_nil_binds = nilb; (if nilb { "generated-nil-binders" } else { "generated" }, g.program()) }
+        else if j < items.len() + n_mut + n_gen { let mut rng = Rng::derive(rep.seed, "C01-gen", 0, j as u64); let fuel = *rng.pick(&[4i64, 8, 16, 30, 60]); let nilb = rng.chance(1, 8); let partial = !nilb && rng.chance(1, 8); let mut g = Gen::new(&mut rng, fuel); g.allow_nil_binds = nilb; g.allow_partial_params = partial; (if nilb { "generated-nil-binders" } else if partial { "generated-partial-parameters" } else { "generated" }, g.program()) }
         else if j < items.len() + n_mut + n_gen + n_ill { let mut rng = Rng::derive(rep.seed, "C01-ill", 0, j as u64); let fuel = *rng.pick(&[4i64, 8, 16, 30]); let s = { let mut g = Gen::new(&mut rng, fuel); g.program() }; ("generated-ill-mutated", ill_mutate(&s, &mut rng)) }
         else { let mut rng = Rng::derive(rep.seed, "C01-scen", 0, j as u64); let cfg = crate::scen::GenCfg { max_nodes: 6, max_depth: 3, confluent: true, fail_permille: 150, binaries: true }; use_reference = false; ("process-scenarios", crate::scen::generate(&mut rng, &cfg).emit()) };
         watch.enter(j, &src);
@@ -226,6 +226,7 @@ pub fn check(rep: &Report) {
             // generated family produces none of the triggers, so there every problem is reported as is
             let attributable = family != "generated";
             let sig = if kind == "value-outside-inferred-type" && what.contains('μ') { "C01:inferred-type-with-escaped-cycle".to_string() }
+                else if attributable && jd.events.contains(&"partial_parameter_with_a_field_at_another_index") { "C01:field-of-partial-typed-value-read-at-the-partial-types-index".to_string() }
                 else if attributable && jd.events.contains(&"tail_call_argument_outside_parameter_type") { "C01:tail-call-argument-unchecked".to_string() }
                 else if attributable && jd.events.contains(&"nil_bound_by_bare_binder") { "C01:variable-bound-to-nil-by-bare-binder-is-typed-non-nil".to_string() }
                 else if attributable && jd.events.contains(&"generic_function_applied") { "C01:generic-instantiation-unsound".to_string() }
